@@ -363,17 +363,23 @@ def _replay(ctx, header, mons, release_obligation):
         ctx.say("replayed %s index %s seed %s: %d runs, %d hang, %d rejected by the automaton, %d with a false monitor"
                 % (prof, idx, seed, len(fresh), len(hang), nrej, nbad))
         if hang and release_obligation:
-            ctx.violation(_replay_obj(ctx, hang[0], "hang", "release obligation violated on replay: Wait did not return", None, mons))
-    badm = [v for v in verdict if v[3]]
-    rej = [v for v in verdict if not v[2] and not v[3]]
+            ctx.violation(_replay_obj(ctx, hang[0], "hang", "release obligation violated on replay: Wait did not return", None, mons), tag="replay")
+    # verdict: the fresh runs decide (does it still happen on this repository?); the recorded trace decides only when
+    # the case could not be re-run.  Replay files written here are tagged so that the replayed file is not overwritten.
+    fresh_v = [v for v in verdict if v[0] is not recorded]
+    basis = fresh_v if fresh_v else verdict
+    badm = [v for v in basis if v[3]]
+    rej = [v for v in basis if not v[2] and not v[3]]
     if badm:
         c, r, acc, bad, why = badm[0]
-        ctx.violation(_replay_obj(ctx, c, "monitor-false", "replay: monitor %s false (%d of %d evaluations)" % (bad[0], len(badm), len(verdict)),
-                                  r, mons, dict(failing_monitor=bad[0])))
+        ctx.violation(_replay_obj(ctx, c, "monitor-false", "replay: monitor(s) %s false (%d of %d runs)" % (bad, len(badm), len(basis)),
+                                  r, mons, dict(failing_monitor=bad[0], failing_monitors=bad)), tag="replay")
     elif rej and not ctx.violations:
         c, r, acc, bad, why = rej[0]
-        ctx.violation(_replay_obj(ctx, c, "correspondence-broken", "replay: corr_engine_accept: " + why, r, mons,
-                                  dict(broken="corr_engine_accept: " + why)), nofail=True)
+        ctx.violation(_replay_obj(ctx, c, "correspondence-broken", "replay: corr_engine_accept: %s (%d of %d runs)" % (why, len(rej), len(basis)),
+                                  r, mons, dict(broken="corr_engine_accept: " + why)), nofail=True, tag="replay")
+    elif not ctx.violations:
+        ctx.say("replay: not reproduced on this repository (%d fresh runs accepted, all monitors true)" % len(basis))
     ctx.evidence(dict(evaluations=len(verdict), distinct_nontrivial=len({c.get("hash") for c in fresh}), rule="replay of " + str(ctx.replay),
                       samples=[], traces_validated_against_impl=len(fresh)))
     return None
